@@ -21,6 +21,7 @@ import c14
 from engine import Violation, CaseResult
 
 PROP = "C11"
+FORCE_WINDOW = False      # set by C03 when it runs this check for its own purpose (every case gets a window)
 NS = 1_000_000_000
 DAY = 86400 * NS
 MON = decor.MON
@@ -158,10 +159,10 @@ def run_case(seed, i, tier):
     dec = decor.Decoration(None, False, 0, "%Y%m%dT%H%M%S", ":", "")
     opts = ["--color", "never", "--tz-offset=" + tzo, "-u", "-d", "%Y%m%dT%H%M%S", "--blocksz", str(bsz)]
     a = b = None
-    if rng.random() < 0.4:
+    if rng.random() < 0.4 or FORCE_WINDOW:
         ts = sorted(set(m.instant for s in srcs for m in s.msgs))
         a = c03.place(rng, ts) if rng.random() < 0.7 else None
-        b = c03.place(rng, ts) if rng.random() < 0.7 else None
+        b = c03.place(rng, ts) if (rng.random() < 0.7 or (FORCE_WINDOW and a is None)) else None
         if a is not None and b is not None and a > b:
             a, b = b, a
         if a is not None:
